@@ -778,6 +778,28 @@ class Enumerator:
                         ast.fix_missing_locations(x)
                     return self.exec_block(parts, st)
 
+                def lib(fexpr):
+                    d = dotted(fexpr) or ""
+                    head = d.split(".")[0]
+                    if st.module is not None and head in st.module.imports and head not in st.env:
+                        d = ".".join([st.module.imports[head]] + d.split(".")[1:])
+                    return d
+
+                #   for t in chain(A, B, ..): body           ==  for t in A: body ; for t in B: body ; ..
+                if isinstance(it0, ast.Call) and lib(it0.func) == "itertools.chain" and it0.args and not it0.keywords and not any(isinstance(a, ast.Starred) for a in it0.args):
+                    parts = [ast.copy_location(ast.For(s.target, side, s.body, [], None), s) for side in it0.args]
+                    for x in parts:
+                        ast.fix_missing_locations(x)
+                    return self.exec_block(parts, st)
+                #   for a, b in zip(A, repeat(c)): body      ==  for a in A: b = c ; body     (c a constant; either position)
+                if isinstance(it0, ast.Call) and lib(it0.func) == "zip" and len(it0.args) == 2 and not it0.keywords and isinstance(s.target, (ast.Tuple, ast.List)) and len(s.target.elts) == 2:
+                    reps = [isinstance(a, ast.Call) and lib(a.func) == "itertools.repeat" and len(a.args) == 1 and not a.keywords and isinstance(a.args[0], ast.Constant) for a in it0.args]
+                    if reps.count(True) == 1:
+                        ci_ = reps.index(True)
+                        inner = ast.copy_location(ast.For(s.target.elts[1 - ci_], it0.args[1 - ci_], [ast.copy_location(ast.Assign([s.target.elts[ci_]], it0.args[ci_].args[0]), s)] + s.body, [], None), s)
+                        ast.fix_missing_locations(inner)
+                        return self.exec_block([inner], st)
+
                 def pure(e):
                     return all(isinstance(n, (ast.Tuple, ast.List, ast.Name, ast.Constant, ast.Attribute, ast.Load, ast.Store)) for n in ast.walk(e))
 
@@ -964,9 +986,24 @@ class Enumerator:
                 continue
             if isinstance(t, ast.Name):
                 continue
-            txt = render(t)
-            if "self." in txt and any(isinstance(n, (ast.Subscript, ast.Call)) for n in ast.walk(t)) and self.cfg.is_shared_read(txt, st):
-                st.env[k] = ast.Name(f"{k}'", ast.Load())
+            if self._is_shared_snapshot(t, st):
+                self._freeze(st, st.env, k, t)
+
+    def _is_shared_snapshot(self, t: ast.expr, st: St) -> bool:
+        txt = render(t)
+        return "self." in txt and any(isinstance(n, (ast.Subscript, ast.Call)) for n in ast.walk(t)) and self.cfg.is_shared_read(txt, st)
+
+    def _freeze(self, st: St, env: dict, k: str, t: ast.expr) -> None:
+        """Local `k` keeps the value it read earlier although the expression it was read from may now yield another: from here on it
+        is the opaque name k'.  What was known about the value itself goes with it (a value that cannot be None stays not-None)."""
+        txt, new = render(t), f"{k}'"
+        env[k] = ast.Name(new, ast.Load())
+        self.emit(st, "freeze", f"{new} = {txt}", None, name=new, of=txt)
+        for atom in (f"{txt} is None",):
+            if atom in st.val:
+                st.val[f"{new} is None"] = st.val[atom]
+            elif not self.cfg.consistent({**st.val, atom: True}):
+                st.val[f"{new} is None"] = False
 
     # ---------------------------------------------------------------- binding
     def bind(self, tgt: ast.expr, term: ast.expr, st: St, stmt: ast.AST, *, quiet: bool = False, aug: bool = False):
@@ -1004,7 +1041,7 @@ class Enumerator:
                     if isinstance(t, ast.Name):
                         continue
                     if text in render(t):
-                        st2.env[k] = ast.Name(f"{k}'", ast.Load())
+                        self._freeze(st2, st2.env, k, t)
                 self._kill_atoms(st2, text)
                 if isinstance(term, (ast.Constant, ast.Name)) and not aug:
                     st2.env[text] = term  # only plain values flow through attributes (identity matters for anything computed)
@@ -1029,7 +1066,86 @@ class Enumerator:
 
     # ---------------------------------------------------------------- expressions
     def subst(self, e: ast.expr, st: St) -> ast.expr:
-        return _subst(e, st.env)
+        t = _subst(e, st.env)
+        if st.selfcls:
+            # write-once fields that cache a stable derived value read as the expression they cache (sa/flow.py: final_field_terms)
+            from .flow import final_field_terms
+
+            ff = final_field_terms(self.P, st.selfcls)
+            if ff and any(isinstance(n, ast.Attribute) and n.attr in ff for n in ast.walk(t)):
+                t = rewrite(t, lambda n: ff[n.attr] if isinstance(n, ast.Attribute) and isinstance(n.ctx, ast.Load) and n.attr in ff and isinstance(n.value, ast.Name) and n.value.id == "self" and f"self.{n.attr}" not in st.env else None)
+        pc = self._pure_consts(st.module) if st.module is not None else {}
+        if pc and any(isinstance(n, ast.Name) and n.id in pc for n in ast.walk(t)):
+            # module-level names bound once to a closed, side-effect free expression read as that expression (an alias such as
+            # SEP = os.path.sep.encode() must not hide what a rule looks at); locals and parameters shadow them
+            t = rewrite(t, lambda n: pc[n.id] if isinstance(n, ast.Name) and isinstance(n.ctx, ast.Load) and n.id in pc and n.id not in st.env else None)
+        return t
+
+    def _pure_consts(self, module) -> dict[str, ast.expr]:
+        cache = self.__dict__.setdefault("_pc_cache", {})
+        if module.name in cache:
+            return cache[module.name]
+        counts: dict[str, int] = {}
+        for n in ast.walk(module.tree):
+            if isinstance(n, ast.Name) and isinstance(n.ctx, (ast.Store, ast.Del)):
+                counts[n.id] = counts.get(n.id, 0) + 1
+            elif isinstance(n, (ast.FunctionDef, ast.AsyncFunctionDef, ast.ClassDef)):
+                counts[n.name] = counts.get(n.name, 0) + 1
+            elif isinstance(n, ast.Global):
+                for g in n.names:
+                    counts[g] = counts.get(g, 0) + 2
+        out: dict[str, ast.expr] = {}
+
+        def pure(e, depth=0) -> ast.expr | None:
+            if depth > 4:
+                return None
+            if isinstance(e, ast.Constant):
+                return e if isinstance(e.value, (str, bytes, int, float, bool, type(None))) else None
+            if isinstance(e, ast.Name):
+                if e.id in out:
+                    return out[e.id]
+                if e.id in module.imports and counts.get(e.id, 0) == 0:
+                    return e
+                return None
+            if isinstance(e, ast.Attribute):
+                v = pure(e.value, depth + 1)
+                return ast.Attribute(v, e.attr, ast.Load()) if v is not None and not isinstance(v, ast.Constant) else None
+            if isinstance(e, ast.Tuple) and 0 < len(e.elts) <= 8:
+                vals = [pure(x, depth + 1) for x in e.elts]
+                return ast.Tuple(vals, ast.Load()) if all(v is not None for v in vals) else None
+            if isinstance(e, ast.BinOp):
+                a, b = pure(e.left, depth + 1), pure(e.right, depth + 1)
+                return ast.BinOp(a, e.op, b) if a is not None and b is not None else None
+            if isinstance(e, ast.Call) and isinstance(e.func, ast.Name) and e.func.id in self.P.value_classes and not e.keywords and counts.get(e.func.id, 0) == 1:
+                # an instance of an immutable value class built from class names / constants (e.g. a pair of event classes)
+                vals = []
+                for a in e.args:
+                    if isinstance(a, ast.Name) and a.id not in out and counts.get(a.id, 0) <= 1 and (a.id in module.imports or a.id in module.classes):
+                        vals.append(a)
+                    else:
+                        v = pure(a, depth + 1)
+                        if v is None:
+                            return None
+                        vals.append(v)
+                return ast.Call(e.func, vals, [])
+            if isinstance(e, ast.Call) and isinstance(e.func, ast.Attribute) and e.func.attr in ("encode", "decode") and not e.keywords and all(isinstance(a, ast.Constant) for a in e.args):
+                v = pure(e.func.value, depth + 1)
+                return ast.Call(ast.Attribute(v, e.func.attr, ast.Load()), list(e.args), []) if v is not None else None
+            return None
+
+        for st_ in module.tree.body:
+            tgt = val = None
+            if isinstance(st_, ast.Assign) and len(st_.targets) == 1 and isinstance(st_.targets[0], ast.Name):
+                tgt, val = st_.targets[0].id, st_.value
+            elif isinstance(st_, ast.AnnAssign) and isinstance(st_.target, ast.Name) and st_.value is not None:
+                tgt, val = st_.target.id, st_.value
+            if tgt and counts.get(tgt) == 1:
+                v = pure(val)
+                # only aliases of something a rule may need to see through: attribute chains / calls on them, or byte / text literals
+                if v is not None and (any(isinstance(x, (ast.Attribute, ast.Call)) for x in ast.walk(v)) or (isinstance(v, ast.Constant) and isinstance(v.value, (str, bytes)) and len(v.value) <= 2)):
+                    out[tgt] = v
+        cache[module.name] = out
+        return out
 
     def ev_seq(self, exprs: list[ast.expr], st: St):
         res: list[tuple[St, list, str | None]] = [(st, [], None)]
@@ -1050,9 +1166,29 @@ class Enumerator:
             return [(st, self.cfg.canon_term(self.subst(e, st), st), None)]
         m = getattr(self, "e_" + type(e).__name__, None)
         res = m(e, st) if m is not None else self._e_generic(e, st)
+        if self.P.value_classes:
+            res = [(s2, self._project(t) if x is None and isinstance(t, ast.AST) else t, x) for s2, t, x in res]
         if type(self.cfg).canon_term is not Cfg.canon_term:
             res = [(s2, self.cfg.canon_term(t, s2) if x is None and isinstance(t, ast.AST) else t, x) for s2, t, x in res]
         return res
+
+    def _project(self, t: ast.expr) -> ast.expr:
+        """Field reads on the constructor term of an immutable value class (NamedTuple with methods) yield the argument."""
+        vc = self.P.value_classes
+
+        def fn(n):
+            if isinstance(n, ast.Attribute) and isinstance(n.value, ast.Call) and isinstance(n.value.func, ast.Name) and n.value.func.id in vc:
+                fields, c = vc[n.value.func.id], n.value
+                if n.attr in fields and not any(isinstance(a, ast.Starred) for a in c.args):
+                    i = fields.index(n.attr)
+                    if i < len(c.args):
+                        return c.args[i]
+                    for k in c.keywords:
+                        if k.arg == n.attr:
+                            return k.value
+            return None
+
+        return rewrite(t, fn)
 
     def _e_generic(self, e: ast.expr, st: St):
         """Evaluate child expressions left to right and rebuild the node."""
@@ -1157,6 +1293,9 @@ class Enumerator:
                 out.append((st2, e, exc))
                 continue
             c, k = parts
+            if isinstance(c, ast.Tuple) and isinstance(k, ast.Constant) and isinstance(k.value, int) and not isinstance(k.value, bool) and -len(c.elts) <= k.value < len(c.elts) and not any(isinstance(x, ast.Starred) for x in c.elts):
+                out.append((st2, c.elts[k.value], None))  # component of a tuple display
+                continue
             t = ast.Subscript(c, k, ast.Load())
             if isinstance(e.ctx, ast.Load) and self.cfg.record_subscripts and not isinstance(k, ast.Slice):
                 text = render(t)
@@ -1187,7 +1326,10 @@ class Enumerator:
                     continue
                 args = []
                 for a, t in zip(e.args, terms[: len(e.args)]):
-                    args.append(ast.Starred(t, ast.Load()) if isinstance(a, ast.Starred) else t)
+                    if isinstance(a, ast.Starred) and isinstance(t, (ast.Tuple, ast.List)) and not any(isinstance(x, ast.Starred) for x in t.elts):
+                        args.extend(t.elts)  # *(a, b) spreads
+                    else:
+                        args.append(ast.Starred(t, ast.Load()) if isinstance(a, ast.Starred) else t)
                 kws = [ast.keyword(k.arg, t) for k, t in zip(e.keywords, terms[len(e.args) :])]
                 call = ast.Call(fterm, args, kws)
                 ast.copy_location(call, e)
@@ -1206,6 +1348,12 @@ class Enumerator:
             recv_cls = None
             st.last_orig = orig
             got = self.cfg.inline(call, ftext, recv_cls, st)
+            if not got and self.P.value_classes and isinstance(call.func, ast.Attribute):
+                rv = call.func.value
+                if isinstance(rv, ast.Call) and isinstance(rv.func, ast.Name) and rv.func.id in self.P.value_classes:
+                    mfi = self.P.find_method(rv.func.id, call.func.attr)
+                    if mfi is not None:
+                        got = (mfi, rv.func.id, rv)  # a method of an immutable value, run on the constructor term
             if got:
                 target = (*got, False)
         if target and st.depth < self.cfg.max_inline_depth:
@@ -1284,9 +1432,14 @@ class Enumerator:
             if d is not None:
                 dmap[a.arg] = d
         bound: dict[str, ast.expr] = {}
+        if len(args) == 1 and isinstance(args[0], ast.Starred) and not call.keywords and fd.args.vararg is None and params and not any(p_ in dmap for p_ in params):
+            # f(*seq) with exactly the positional parameters to fill: parameter i is seq[i]
+            args = [ast.Subscript(args[0].value, ast.Constant(i), ast.Load()) for i in range(len(params))]
         for p, a in zip(params, args):
             if not isinstance(a, ast.Starred):
                 bound[p] = a
+        if fd.args.vararg is not None and not any(isinstance(a, ast.Starred) for a in args):
+            bound[fd.args.vararg.arg] = ast.Tuple(list(args[len(params) :]), ast.Load())
         for k in call.keywords:
             if k.arg:
                 bound[k.arg] = k.value
@@ -1313,7 +1466,23 @@ class Enumerator:
                             continue
                         rt_ = render(t)
                         if any(tg in rt_ for tg in stored):
-                            new_env[k] = ast.Name(f"{k}'", ast.Load())
+                            self._freeze(s2, new_env, k, t)
+            if self.cfg.freeze_locals and not is_closure:
+                # a local handed to the callee and frozen there (the callee took a lock) is the same snapshot in the caller
+                linked = set()
+                oargs = list(orig.args)[1:] if getattr(fi, "explicit_self", False) else list(orig.args)
+                for p_, a_ in zip(params, oargs):
+                    fz = callee_env.get(p_)
+                    if isinstance(a_, ast.Name) and isinstance(fz, ast.Name) and fz.id.endswith("'") and a_.id in new_env and not isinstance(new_env[a_.id], (ast.Name, ast.Constant, ast.FunctionDef)):
+                        new_env[a_.id] = fz
+                        linked.add(a_.id)
+                # ... and the caller's other locals that hold earlier reads of shared state are snapshots too once the callee has waited for a lock
+                if self.cfg.havoc_on_acquire and any(e.kind == "acquire" for e in s2.evs[mark:]):
+                    for k, t in list(new_env.items()):
+                        if "." in k or k == "self" or k in linked or isinstance(t, (ast.FunctionDef, ast.Name)):
+                            continue
+                        if self._is_shared_snapshot(t, s2):
+                            self._freeze(s2, new_env, k, t)
             if is_closure:
                 for k, v in callee_env.items():
                     if k.startswith("self."):
@@ -1331,6 +1500,8 @@ class Enumerator:
                 rt = o[1]
                 if selfterm is not None and isinstance(rt, ast.AST):
                     rt = rewrite(rt, lambda n: selfterm if isinstance(n, ast.Name) and n.id == "self" else None)
+                    if self.P.value_classes:
+                        rt = self._project(rt)
                 out.append((s2, rt, None))
             elif o is NORMAL:
                 out.append((s2, ast.Constant(None), None))
@@ -1479,6 +1650,23 @@ class Enumerator:
 
 
 # --------------------------------------------------------------------------------------------- lock sets
+def snapshot_names(evs) -> dict[str, str]:
+    """frozen local (k') -> text of the expression it is a snapshot of, from the freeze events of a path prefix"""
+    return {e.extra["name"]: e.extra["of"] for e in evs if e.kind == "freeze"}
+
+
+def snap_canon(text: str, snaps: dict[str, str]) -> str:
+    """`text` with every frozen local replaced by snap<what it was read from>, constant subscripts applied inside: with
+    entry' = self._queue[0], `entry'[0]` reads snap<self._queue[0][0]>, the same as head' when head' = self._queue[0][0]."""
+    import re as _re
+
+    def sub(m):
+        of = snaps.get(m.group(1) + "'")
+        return m.group(0) if of is None else f"snap<{of}{m.group(2)}>"
+
+    return _re.sub(r"(\w+)'((?:\[-?\d+\])*)", sub, text)
+
+
 def locksets(path: Path, canon: Callable[[str], str] = lambda s: s, entry: tuple[str, ...] = ()):
     """Yield (event, held-multiset as dict) walking the top-level events of a path."""
     held: dict[str, int] = {}
